@@ -122,7 +122,12 @@ static void gen_inot(int tier)
 		for (j = 0; j < n && nw < 38; j++) {
 			int w = gx_add_obj(K_WATCH, 0);
 			G->obj[w].p[0] = in;
-			G->obj[w].p[1] = R(8);
+			/* an inode is watched by one instance only: the kernel orders the marks of several groups on
+			 * one inode by group address, which would make the order of the two instances' events (and
+			 * so the run) irreproducible */
+			G->obj[w].p[1] = (R(8) / ninst) * ninst + i;
+			if (G->obj[w].p[1] > 7)
+				G->obj[w].p[1] = i;
 			G->obj[w].p[2] = masks[R(7)];
 			watches[nw++] = w;
 			if (P(80))
